@@ -291,6 +291,7 @@ func (e *Engine) driverA(t *core.Tape, cfg *core.Config, st *core.Stats) *core.V
 		r := runVM(proto, bodies, sched, who, hostapi.VRaise, k, S*4+10000, o)
 		st.Evals++
 		st.Steps += r.steps
+		st.D(model.HashTrace(r.trace, ""))
 		if !r.fired {
 			return nil
 		}
